@@ -300,6 +300,7 @@ func DefaultGossipSubRouter(h host.Host) *GossipSubRouter {
 		gossip:          make(map[peer.ID][]*pb.ControlIHave),
 		control:         make(map[peer.ID]*pb.ControlMessage),
 		backoff:         make(map[string]map[peer.ID]time.Time),
+		lastPrune:       make(map[string]map[peer.ID]time.Time),
 		peerhave:        make(map[peer.ID]int),
 		peerdontwant:    make(map[peer.ID]int),
 		unwanted:        make(map[peer.ID]map[checksum]int),
@@ -603,6 +604,7 @@ type GossipSubRouter struct {
 	iasked       map[peer.ID]int                  // number of messages we have asked from peer in the last heartbeat
 	outbound     map[peer.ID]bool                 // connection direction cache, marks peers with outbound connections
 	backoff      map[string]map[peer.ID]time.Time // prune backoff
+	lastPrune    map[string]map[peer.ID]time.Time // time of the last PRUNE exchanged with a backed off peer
 	connect      chan connectInfo                 // px connection requests
 	cab          peerstore.AddrBook
 
@@ -1103,8 +1105,13 @@ func (gs *GossipSubRouter) handleGraft(p peer.ID, ctl *pb.ControlMessage) []*pb.
 			gs.score.AddPenalty(p, 1)
 			// no PX
 			doPX = false
-			// check the flood cutoff -- is the GRAFT coming too fast?
+			// check the flood cutoff -- is the GRAFT coming too fast after the last PRUNE?
+			// (the backoff may have been set by an unsubscribe or by a period
+			// named by the peer, so it cannot be derived from its expiry)
 			floodCutoff := expire.Add(gs.params.GraftFloodThreshold - gs.params.PruneBackoff)
+			if lastPrune, ok := gs.lastPrune[topic][p]; ok {
+				floodCutoff = lastPrune.Add(gs.params.GraftFloodThreshold)
+			}
 			if now.Before(floodCutoff) {
 				// extra penalty
 				gs.score.AddPenalty(p, 1)
@@ -1240,10 +1247,21 @@ func (gs *GossipSubRouter) doAddBackoff(p peer.ID, topic string, interval time.D
 		backoff = make(map[peer.ID]time.Time)
 		gs.backoff[topic] = backoff
 	}
-	expire := time.Now().Add(interval)
+	now := time.Now()
+	expire := now.Add(interval)
 	if backoff[p].Before(expire) {
 		backoff[p] = expire
 	}
+
+	if gs.lastPrune == nil {
+		gs.lastPrune = make(map[string]map[peer.ID]time.Time)
+	}
+	lastPrune, ok := gs.lastPrune[topic]
+	if !ok {
+		lastPrune = make(map[peer.ID]time.Time)
+		gs.lastPrune[topic] = lastPrune
+	}
+	lastPrune[p] = now
 }
 
 func (gs *GossipSubRouter) pxConnect(peers []*pb.PeerInfo) {
@@ -1959,10 +1977,12 @@ func (gs *GossipSubRouter) clearBackoff() {
 			// https://github.com/libp2p/specs/pull/289
 			if expire.Add(2 * GossipSubHeartbeatInterval).Before(now) {
 				delete(backoff, p)
+				delete(gs.lastPrune[topic], p)
 			}
 		}
 		if len(backoff) == 0 {
 			delete(gs.backoff, topic)
+			delete(gs.lastPrune, topic)
 		}
 	}
 }
